@@ -196,7 +196,7 @@ pub fn check() -> PropertyCheck {
         ],
         subs: vec![Box::new(Pbt {
             name: "e2e-outcomes",
-            quick: 6000,
+            quick: 80_000,
             thorough: 300_000,
             strat,
             test,
